@@ -93,7 +93,7 @@ def run_kani_group(prop, grp, tier, obligations, undecided, failures, checker_cm
         res, meta, raw = vlib.kani_run(
             ws, crate, [h["name"] for h in hs], features=features, jobs=grp.get("jobs", 8),
             timeout=timeout, harness_timeout=max(h.get("timeout", 300) for h in hs),
-            solver=grp.get("solver"), modpath=grp.get("modpath"))
+            solver=grp.get("solver"), modpath=grp.get("modpath"), c_lib=grp.get("c_lib"))
         checker_cmds.append(meta["cmd"])
         ev_extra.setdefault("kani_runs", []).append(meta)
         if not res:
@@ -165,7 +165,7 @@ def run_kani_group(prop, grp, tier, obligations, undecided, failures, checker_cm
                 continue
             pb = vlib.kani_playback(ws, crate, f["harness"]["name"], features=features,
                                     solver=grp.get("solver"), modpath=grp.get("modpath"),
-                                    run_native=f["harness"].get("replayable", True))
+                                    run_native=f["harness"].get("replayable", True), c_lib=grp.get("c_lib"))
             f["playback"] = pb
     finally:
         ws.cleanup()
